@@ -9,7 +9,7 @@ from __future__ import annotations
 import copy
 
 from sim import faults, kernel, world
-from sim.fingerprint import config_fp, diff_paths, fp, generalise
+from sim.fingerprint import classify, config_fp, diff_paths, fp, generalise
 from sim.kernel import Violation
 from sim.outcome import in_documented_channel, run_call, canon_obj, innermost_pandera_frame, exc_name
 
@@ -190,8 +190,8 @@ class Scenario:
         out = []
         f1 = self.fingerprint()
         if f1 != self.fp0:
-            paths = sorted({generalise(p) for p in diff_paths(self.fp0, f1)})
-            out.append((f"trace|schema|{','.join(paths)}|{tag}", f"schema fingerprint changed at {diff_paths(self.fp0, f1)}"))
+            for what in classify(diff_paths(self.fp0, f1, limit=40)):
+                out.append((f"trace|schema|{what}|{tag}", f"schema fingerprint changed at {diff_paths(self.fp0, f1)}"))
             self.restore_subject()
         c1 = config_fp()
         if c1 != self.cfg0:
@@ -299,6 +299,7 @@ def run_scenario(sc, plans=None, want_sample=False):
     faults.install(faults.FaultState())
     from pandera import config
     config.reset_config_context()
+    world.warm_registries()
     scn = Scenario(sc)
     lazy = scn.mode["lazy"]
 
